@@ -22,6 +22,14 @@ EXPL = (
 )
 
 
+def is_umax(t, a, b):
+    """t is max(a, b) unsigned, written as a conditional: ite(p < q, q, p) / ite(p <= q, q, p) with {p, q} = {a, b}"""
+    if not (isinstance(t, T) and t.op == "ite" and isinstance(t.args[0], T) and t.args[0].op in ("ult", "ule")):
+        return False
+    p, q = t.args[0].args
+    return t.args[1] is q and t.args[2] is p and ((p is a and q is b) or (p is b and q is a))
+
+
 def fconst(t):
     if isinstance(t, T) and t.is_const() and t.bits == 64:
         return struct.unpack("<d", struct.pack("<Q", t.val))[0]
@@ -177,8 +185,13 @@ def run(chk):
             # the same padding as one call: grow the queue to exactly one frame with the last sample (the guard
             # len < samples_per_frame makes it a growth, never a truncation)
             seen.add("pad")
-            chk.check(short is True, key + "/guard", "the queue is resized although it already holds a frame")
-            chk.check(len(resizes) == 1 and resizes[0].args[1] is SPFs, key + "/pad-range", "the queue is not resized to exactly samples_per_frame: %s" % (resizes[0].args[1],))
+            tgt = resizes[0].args[1]
+            # either under the guard len < samples_per_frame (target exactly one frame), or unguarded with the target
+            # max(len, samples_per_frame): a growth to one frame when short, the identity otherwise (never a truncation)
+            as_max = short is not True and is_umax(tgt, QLEN, SPFs)
+            chk.check(short is True or as_max, key + "/guard", "the queue is resized although it already holds a frame")
+            chk.check(len(resizes) == 1 and (tgt is SPFs if short is True else as_max), key + "/pad-range",
+                      "the queue is not resized to exactly samples_per_frame: %s" % (tgt,))
             chk.check(all(getattr(e.args[2], "name", None) == "mix.last_sample" for e in resizes), key + "/pad-value", "padding is not the last generated sample")
         if r.outcome == "return":
             seen.add("done")
